@@ -175,7 +175,8 @@ ResyncFails(ev, allouts) ==
       answered(k) == LET f == fr[k]
                          e == Exec(tab[Key(Cfg, f.uid)], ParseReq(f.pdu)) IN
                      \E j \in 1..Len(ws) : LET p == ParseFrame(T.kind, ws[j].bytes) IN p.ok /\ p.uid = f.uid /\ p.pdu = Encode(e.rsp)
-  IN IF \E k \in late : ~answered(k) THEN {"ServerResync"} ELSE {}
+  IN IF ev.closed = 0 /\ (\E k \in late : ~answered(k)) THEN {"ServerResync"} ELSE {}
+     \* (a stream handler may answer a protocol error by closing the connection - C12; a serial line cannot be closed)
 
 Eval(ev) == IF T.mode = "strict" \/ ev.op = "probe" THEN EvalStrict(ev)
             ELSE IF T.mode = "resync"
